@@ -665,7 +665,7 @@ impl Check for C17Check {
         180
     }
     fn rule(&self) -> &'static str {
-        "case = corpus template (6 hand-written ST programs with nested FUNCTION->FB->method calls, FOR/WHILE/REPEAT loops, EXIT/CONTINUE/RETURN, 2-3 tasks + background program) with seeded parameters x K in 1..4 cycles x seeded controller script over {set breakpoints (plain, conditional, hit-count, logpoint), clear, pause, pause(thread), continue, step in/over/out (global, current thread, other thread), wait-for-stop, yield} x one shuttle schedule; distinct non-trivial = distinct hash of the ordered observable event log of runs in which the cycle thread was observed parked at least once"
+        "case = corpus template (6 hand-written ST programs with nested FUNCTION->FB->method calls, FOR/WHILE/REPEAT loops, EXIT/CONTINUE/RETURN, 2-3 tasks + background program) with seeded parameters x K in 1..4 cycles x seeded controller script over {set breakpoints (plain, conditional, hit-count, logpoint), clear, pause, pause(thread), continue, step in/over/out (global, current thread, other thread), wait-for-stop, yield} x one shuttle schedule; corpus now 7 templates (task-bound FB instances; RETURN executed); the command-free run also requires that the hook stays attached and that every executed statement reaches it with a source location; distinct non-trivial = distinct hash of the ordered observable event log of runs in which the cycle thread was observed parked at least once"
     }
     fn assumptions(&self) -> Vec<&'static str> {
         vec![
